@@ -2,7 +2,7 @@
 import ast
 from sa.index import AnalysisError
 from sa.paths import call_name
-from rules.common import string_values, guard_dnf, txt, module_regex, regex_skeleton, format_skeleton, paths_of, loc, tests_on
+from rules.common import Quiet, with_helpers, string_values, guard_dnf, txt, module_regex, regex_skeleton, format_skeleton, paths_of, loc, tests_on
 
 SPEC = {
     'explanation': (
@@ -163,24 +163,37 @@ def run(ctx):
            detail='reads %s, produced %s' % (sorted(consumed), sorted(produced)))
     # header literal
     heads_w = [v for v, n in string_values(ts, [f for f in scope if f is not ts]) if v.startswith('Traceback')]
-    heads_r = [v for v, n in string_values(fs) if v.startswith('Traceback')]
+    heads_r = [v for v, n in string_values(fs, [f for f in with_helpers(prog, fs, pci) if f is not fs]) if v.startswith('Traceback')]
     ctx.ob('T12.header', ts.fq, 'header literal written == header literal recognised', bool(heads_w) and set(heads_w) == set(heads_r),
            loc=ts.loc, detail='%s vs %s' % (heads_w, heads_r))
     # exception line separator
     seps_r = [n.args[0].value for n in ast.walk(fs.node) if isinstance(n, ast.Call) and isinstance(n.func, ast.Attribute)
               and n.func.attr in ('partition', 'split') and n.args and isinstance(n.args[0], ast.Constant) and 'exc' in txt(n.func.value)]
     wsep = None
-    for n in ast.walk(ts.node):
+    # locals that merely name an attribute of self (a = self.x; a, b = self.x, self.y)
+    local_def = {}
+    for f_ in scope:
+        for a in ast.walk(f_.node):
+            if isinstance(a, ast.Assign) and len(a.targets) == 1:
+                tg, vl = a.targets[0], a.value
+                prs = list(zip(tg.elts, vl.elts)) if isinstance(tg, ast.Tuple) and isinstance(vl, ast.Tuple) and \
+                    len(tg.elts) == len(vl.elts) else [(tg, vl)]
+                for t_, v_ in prs:
+                    if isinstance(t_, ast.Name) and isinstance(v_, ast.Attribute) and txt(v_.value) == 'self':
+                        local_def[t_.id] = v_
+    for n in [x for f_ in scope for x in ast.walk(f_.node)]:
         cands = []
         if isinstance(n, ast.Call) and isinstance(n.func, ast.Attribute) and n.func.attr == 'append' and n.args:
             cands.append(n.args[0])
         if isinstance(n, ast.Assign):
             cands.append(n.value)
+        if isinstance(n, ast.Return) and n.value is not None:
+            cands.append(n.value)
         for cnd in cands:
             if not isinstance(cnd, (ast.JoinedStr, ast.BinOp, ast.Call)):
                 continue
             s2, h2 = format_skeleton(cnd)
-            hs = [txt(h) for h in h2]
+            hs = [txt(local_def.get(h.id, h)) if isinstance(h, ast.Name) else txt(h) for h in h2]
             if hs == ['self.exc_type', 'self.exc_msg']:
                 wsep = s2
     ctx.ob('T12.excline', ts.fq, 'exception line is "<type>" + separator + "<message>" with the separator from_string partitions on',
@@ -241,12 +254,19 @@ def run(ctx):
     ctx.ob('T12.frame', tf.fq, 'rendered frame line has the standard skeleton', [s4[0].strip()] + s4[1:-1] + [s4[-1].rstrip('\n')] == segs
            and s4[0].startswith('  ') and s4[-1] == '\n', loc=tf.loc, detail=str(s4))
     ctx.ob('T12.frame', tf.fq, 'holes are module_path, lineno, func_name', [txt(h) for h in h4] == ['self.module_path', 'self.lineno', 'self.func_name'], loc=tf.loc)
-    line_ifs = [n for n in ast.walk(tf.node) if isinstance(n, ast.If) and 'self.line' in txt(n.test)]
     from rules.common import strip_not
-    ok = bool(line_ifs) and all(txt(strip_not(n.test)[0]) in ('self.line', 'str(self.line)', 'str(self.line).strip()', 'len(self.line)',
-                                                              'len(self.line) > 0') for n in line_ifs)
+    # decided on the tests the paths take, with locals substituted back (line = self.line; if line: ...)
+    wtf, tfpaths = paths_of(prog, tf, recv=prog.cls('tbutils.Callpoint'))
+    line_tests = []
+    for p_ in tfpaths:
+        for t_, truth_, o_ in tests_on(wtf, p_):
+            if 'self.line' in t_:
+                line_tests.append(t_)
+    line_ifs = sorted(set(line_tests))
+    ok = bool(line_ifs) and all(t_ in ('self.line', 'str(self.line)', 'str(self.line).strip()', 'len(self.line)',
+                                       'len(self.line) > 0') for t_ in line_ifs)
     ctx.ob('T19.line', tf.fq, 'the source line is emitted only when it is non-empty (truthiness test; the interpreter prints nothing '
-           'for a frame without source)', ok, loc=loc(tf, line_ifs[0]) if line_ifs else tf.loc, detail=[txt(n.test) for n in line_ifs].__repr__())
+           'for a frame without source)', ok, loc=tf.loc, detail=repr(line_ifs))
     # trailing noise lines ("Exception ... ignored") are discarded only when BOTH ends of the line say so: a line that merely
     # ends (or merely starts) that way is part of the exception message
     fs = prog.func('tbutils.ParsedException.from_string')
@@ -288,7 +308,8 @@ def run(ctx):
         wf_ = prog.func('tbutils.TracebackInfo.' + nm)
         loops = [n for n in ast.walk(wf_.node) if isinstance(n, ast.While)]
         if len(loops) != 1:
-            ctx.unknown('T9.walk', wf_.fq, 'expected exactly one walking loop, found %d' % len(loops), wf_.loc)
+            # the walking loop is not a named anchor of the property: a different shape (e.g. a shared generator) is not judged
+            ctx.info('T9.walk: %s has no single walking loop of its own (%d found): not decided' % (wf_.fq, len(loops)))
             continue
         lp = loops[0]
         # the cursor: the name re-bound from <name>.<link> inside the loop
@@ -352,7 +373,13 @@ def run(ctx):
     cci = prog.cls('tbutils.Callpoint')
     for name, gl in (('from_tb', 'f_globals'), ('from_frame', 'f_globals')):
         cf = prog.func('tbutils.Callpoint.' + name)
-        w2, paths2 = paths_of(prog, cf, recv=cci)
+
+        class ClsInl(Quiet):          # private helpers of the class (called on cls / self) are seen in context
+            def inline(self, walker, op, callee, st):
+                rv = op.recv_val
+                return isinstance(rv, ast.Name) and rv.id in ('cls', 'self') and callee.name.startswith('_') and \
+                    not callee.name.startswith('__')
+        w2, paths2 = paths_of(prog, cf, recv=cci, model=ClsInl(prog))
         seen_dl = 0
         for p2 in paths2:
             for o in p2.ops:
